@@ -61,7 +61,7 @@ Section Build.
     b_class : e_class e = class_trusted ver;
     b_red : e_redacted e = false;
     b_members : exists s, e_json e = jset k_signatures s (j0_of ver p eid ts origin);
-    b_idraw : e_idraw e = or_empty (dec_str (bs "event_id") (e_json e));
+    b_idraw : e_idraw e = json_event_id (class_trusted ver) (e_json e);
     b_decodes : decodes (class_trusted ver) (e_json e) = true;
     b_room : room_check (class_trusted ver) (e_json e) = true;
     b_canon : canonical_check_ok ver (e_json e) = true;
@@ -434,10 +434,10 @@ Section Build.
     - (* same accessors *)
       rewrite (ev_eta e), (b_ver _ _ _ _ _ _ B), (b_class _ _ _ _ _ _ B), (b_red _ _ _ _ _ _ B), (b_idraw _ _ _ _ _ _ B), Ej'.
       fold c.
-      assert (Eid : or_empty (dec_str (bs "event_id") (jdel k_unsigned (JObj M))) = or_empty (dec_str (bs "event_id") (JObj M))).
-      { rewrite (dec_str_ext (bs "event_id") _ _ (Sj1 (bs "event_id") ltac:(sk))). reflexivity. }
+      assert (Eid : json_event_id c (jdel k_unsigned (JObj M)) = json_event_id c (JObj M)).
+      { unfold json_event_id. rewrite (dec_str_ext (bs "event_id") _ _ (Sj1 (bs "event_id") ltac:(sk))). reflexivity. }
       unfold mk_parsed. rewrite Eid.
-      apply (same_fields_with_json (mkEv ver c (JObj M) false (or_empty (dec_str (bs "event_id") (JObj M)))) (jdel k_unsigned (JObj M)) Sj1).
+      apply (same_fields_with_json (mkEv ver c (JObj M) false (json_event_id c (JObj M))) (jdel k_unsigned (JObj M)) Sj1).
       simpl e_ver. apply reference_id_ignores_unsigned_del.
   Qed.
 End Build.
